@@ -22,7 +22,7 @@ func init() {
 			"(R2) progress: the option loop consumes ≥ 1 byte per iteration, the option-capacity retry strictly grows the capacity, the stream loop consumes exactly what the decoder reported; " +
 			"(R3) no silent narrowing: the stream header parser is abstractly interpreted on fully symbolic buffers of every length 0…16 – no wrap, no lossy conversion, no out-of-range access, only the four documented outcomes; the running option number goes through the checked cast and its error is returned; " +
 			"(R4) what the decoders accept satisfies the encoders' preconditions (token ≤ 8 bytes in both decoders; option numbers ascend because delta is unsigned); " +
-			"(R5) the pooled-message entry point copies the caller's bytes and hands only its own buffer to the decoder; (R6) the option registries equal the RFC tables, are written only by their initialisers, and illegal lengths are skipped exactly outside [Min,Max].",
+			"(R5) the pooled-message entry point copies the caller's bytes and hands only its own buffer to the decoder; (R6) the option registries equal the RFC tables, are written only by their initialisers, illegal lengths are skipped exactly outside [Min,Max], and the stream decoder selects the registry by the FRAME's code; (R7) re-encodability: the encoder's extension classes compose with the decoder's to the identity (shared with C01.R1).",
 		NotDecided: "Agreement with an independent RFC parser on every byte string, idempotence of decode∘encode, and bounded time beyond loop progress (allocation, GC) are not decided – they need execution.",
 		Run:        runC02,
 	})
@@ -62,7 +62,7 @@ func runC02(e *Env) {
 	r.Rule("C02.R3", "absint", "no wrap / lossy conversion / out-of-range access in the stream header parser for any buffer of length 0…16; option number overflow is rejected", 18)
 	r.Rule("C02.R4", "bounds+flows", "decoders only accept what the encoders can re-encode (token ≤ 8 bytes); option numbers accumulate over every parsed option", 4)
 	r.Rule("C02.R5", "flows", "the pooled entry point copies the input and decodes its own buffer", 2)
-	r.Rule("C02.R6", "tables", "option registries equal the RFC tables and are single-writer; illegal lengths skipped exactly outside [Min,Max]", 7)
+	r.Rule("C02.R6", "tables+absint", "option registries equal the RFC tables and are single-writer; illegal lengths skipped exactly outside [Min,Max]; registry selected by the frame code", 14)
 
 	sums := c02Summaries()
 	core.FieldSummaries["tcp/coder.Coder.DecodeHeader"] = core.FieldSummary{Field: "Length", StructArg: 2, Param: 1}
@@ -106,6 +106,13 @@ func runC02(e *Env) {
 	}
 	if e.want("C02.R6") {
 		c02Registry(e)
+		c01SignalRegistries(e, "C02.R6")
+	}
+	if e.want("C02.R7") {
+		// re-encodability of what was accepted: the encoder's extension classes are exactly the decoder's (same obligations as C01.R1)
+		r.Rule("C02.R7", "absint", "whatever the decoders accept can be re-encoded to bytes that decode to the same values: encoder and decoder class tables compose to the identity", 12)
+		c01OptionClasses(e, "C02.R7")
+		c01StreamLength(e, "C02.R7")
 	}
 }
 
